@@ -28,23 +28,20 @@ EXEC_BIND_ACTIONS = frozenset(
 
 # Pattern to extract command from action(cmd) syntax
 PAREN_PATTERN = re.compile(r"(execute|execute-silent|become)\((.+)\)")
-
-# Pattern to extract command from action:cmd syntax
-COLON_PATTERN = re.compile(r"(execute|execute-silent|become):(\S+)")
+# The colon form takes the rest of the bind string as the command
+COLON_PATTERN = re.compile(r"(execute|execute-silent|become):(.+)$", re.DOTALL)
+# execute|cmd|, execute[cmd], execute~cmd~ ...: any other delimiter right after the action name
+OTHER_DELIM_PATTERN = re.compile(r"(?:^|[:,+])(execute|execute-silent|become)[^A-Za-z0-9_\-(:,+]")
 
 
 def _extract_exec_command(bind_value: str) -> str | None:
     """Extract the command from execute/execute-silent/become actions."""
-    # Try parenthesis syntax: execute(cmd)
     match = PAREN_PATTERN.search(bind_value)
     if match:
         return match.group(2)
-
-    # Try colon syntax: execute:cmd
     match = COLON_PATTERN.search(bind_value)
     if match:
         return match.group(2)
-
     return None
 
 
@@ -59,6 +56,8 @@ def _has_exec_bind_action(bind_value: str) -> bool:
         for part in parts:
             if part == action:
                 return True
+    if OTHER_DELIM_PATTERN.search(bind_value):
+        return True
     return False
 
 
@@ -66,14 +65,14 @@ def classify(ctx: HandlerContext) -> Classification:
     """Classify fzf command."""
     tokens = ctx.tokens
     base = tokens[0] if tokens else "fzf"
+
+    # Every --bind option counts: fzf runs whichever one is triggered
+    inner_cmds: list[str] = []
     for i, token in enumerate(tokens):
-        # Check for --listen-unsafe flag
         if token == "--listen-unsafe" or token.startswith("--listen-unsafe="):
             return Classification("ask", description=f"{base} --listen-unsafe")
 
-        # Check for --bind with exec actions
         if token == "--bind" or token.startswith("--bind="):
-            # Get the bind value
             if token == "--bind":
                 if i + 1 < len(tokens):
                     bind_value = tokens[i + 1]
@@ -83,15 +82,21 @@ def classify(ctx: HandlerContext) -> Classification:
                 bind_value = token[7:]  # len("--bind=") == 7
 
             if _has_exec_bind_action(bind_value):
-                # Try to extract and delegate the inner command
+                if OTHER_DELIM_PATTERN.search(bind_value):
+                    # A delimiter form this handler does not take apart
+                    return Classification("ask", description=f"{base} --bind")
                 inner_cmd = _extract_exec_command(bind_value)
                 if inner_cmd:
-                    return Classification(
-                        "delegate",
-                        inner_command=inner_cmd,
-                        description=f"{base} --bind",
-                    )
-                # Couldn't extract command, ask for confirmation
-                return Classification("ask", description=f"{base} --bind")
+                    inner_cmds.append(inner_cmd)
+                else:
+                    return Classification("ask", description=f"{base} --bind")
+
+    if inner_cmds:
+        # One per line: all of them must be acceptable
+        return Classification(
+            "delegate",
+            inner_command="\n".join(inner_cmds),
+            description=f"{base} --bind",
+        )
 
     return Classification("allow", description=base)
